@@ -35,6 +35,12 @@ def op_type(bv, o):
     return bv.place_ty(pl)["s"]
 
 
+def _anc(cx):
+    while cx is not None:
+        yield cx
+        cx = cx.parent
+
+
 def prove_overflow(bv, site, env):
     """Interval proof for an Overflow(op) assert: both operands bounded so that the result fits."""
     t = site["t"]
@@ -230,6 +236,26 @@ def run(F, R):
                         "non-storage effects are control-dependent on a storage result: %s" % bad[:4], nd.loc())
             # the function's return value must not depend on it either (same provenance on all paths)
         R.count("storage_result_tests", len(seen))
+
+    # storage reads inside a check or ping: a value read back after it was written in the same run differs when that write failed,
+    # so the only keys read there are the ones whose values feed metrics alone (first-seen bookkeeping, install-attempt counter)
+    READ_BACK_OK = {"install_plan_id", "update_first_seen_time", "consecutive_failed_install_attempts"}
+    n_reads = 0
+    for (SS, tag, pred) in ((S, "check", lambda n: True), (Sr, "ping", lambda n: any(lib.is_ping_body(cx_.bv) for cx_ in _anc(n.ctx)))):
+        for n in SS.nodes:
+            if n.idx not in SS.live or not SS.ev[n.idx] or SS.ev[n.idx][0] != "env" or SS.ev[n.idx][1] != "Storage" or not str(SS.ev[n.idx][2]).startswith("get") or not pred(n):
+                continue
+            n_reads += 1
+            kt = strip(SS.trace(n, n.term["args"][1])) if len(n.term["args"]) > 1 else ("undef",)
+            kv = lib.term_const(c, kt) if kt[0] == "const" else None
+            kname = (n.ctx.bv.body.get("item") or n.ctx.bv.id.split("::")[-2])
+            if kv is None and kt[0] != "const":
+                # keyed by a value (an app id): App::load at build time only, never inside a check
+                R.check("C14-R2", "read-back:%s:%s" % (tag, kname), False, "", "a check/ping reads storage under a computed key in %s: what is announced may depend on whether earlier writes succeeded" % kname, n.loc())
+            else:
+                R.check("C14-R2", "read-back:%s:%s" % (tag, kv), kv in READ_BACK_OK, "reads %r (feeds metrics / bookkeeping only)" % kv,
+                        "a check/ping reads back storage key %r in %s: after a failed write of that key the run no longer behaves like one with working storage" % (kv, kname), n.loc())
+    R.floor("C14-R2", "storage reads inside a check", n_reads, 2)
 
     # ---------------------------------------------------------------- R3 unsafe census
     R.rule("C14-R3", "the only hand-written unsafe blocks in reachable code are the two from_utf8_unchecked calls justified by C01-R6")
